@@ -58,3 +58,54 @@ def c19_count(d):
   return {"status": "confirmed" if got != true else "refuted",
           "observed": {"layer": layer.__class__.__name__, "input_shape": str(ishape), "reported": int(got), "loop_nest_count": int(true)},
           "expected": "reported operation count equals the number of scalar multiply-accumulates"}
+
+
+@replayer("c14_export")
+def c14_export(d):
+  """Run the real model_save_quantized_weights on a one-layer QDense model (harness-side shim: the
+  fusing-pair finder, which cannot run under the pinned Keras 3, is replaced by its contract)."""
+  import tensorflow as tf
+  import qkeras.utils as U
+  from qkeras import QDense, quantized_bits, quantized_po2, quantized_relu_po2, binary
+  from tensorflow.keras.layers import Input
+  from tensorflow.keras.models import Model
+  kind = d["case"].rsplit("_bias", 1)[0]
+  w = d["witness"] or {}
+  bits = int(w.get("bits", 4))
+  integer = int(w.get("integer", 0))
+  kq = {"fixed": lambda: quantized_bits(4, 0, 1), "binary": lambda: binary(),
+        "po2": lambda: quantized_po2(4), "relu_po2": lambda: quantized_relu_po2(4),
+        "auto_po2": lambda: quantized_bits(bits, integer, 1, alpha="auto_po2")}[kind]()
+  x = Input((4,))
+  y = QDense(3, kernel_quantizer=kq, bias_quantizer=quantized_bits(4, 0, 1), name="d")(x)
+  m = Model(x, y)
+  wts = np.array([[0.11, -0.32, 0.9], [0.05, 0.2, -0.7], [0.3, 0.1, 0.4], [-0.2, 0.25, 0.6]], dtype=np.float32) * 3
+  m.get_layer("d").set_weights([wts, np.array([0.1, -0.2, 0.3], dtype=np.float32)])
+  saved_find = U.find_bn_fusing_layer_pair
+  U.find_bn_fusing_layer_pair = lambda model, custom_objects={}: ({}, set())
+  try:
+    sw = U.model_save_quantized_weights(m)
+  finally:
+    U.find_bn_fusing_layer_pair = saved_find
+  stored = m.get_layer("d").get_weights()[0]
+  hw = np.array(sw["d"]["weights"][0])
+  clause = d["clause"]
+  obs = {"kind": kind, "stored": stored.tolist(), "hw": hw.tolist()}
+  if clause in ("auto_po2_tuple", "int_in_range"):
+    sc = np.array(sw["d"]["scales"][0])
+    obs["scales"] = sc.tolist()
+    if clause == "auto_po2_tuple":
+      bad = not np.array_equal(sc * hw, stored)
+    else:
+      lim = 2 ** (bits - 1) - 1
+      bad = bool(np.any(hw != np.round(hw)) or np.any(np.abs(hw) > lim))
+    return {"status": "confirmed" if bad else "refuted", "observed": obs,
+            "expected": "scales * integer_weights == stored weights, integer weights within the declared code range"}
+  if clause == "po2_tuple":
+    sg = np.array(sw["d"].get("signs", [np.ones_like(hw)])[0])
+    bad = not np.array_equal(sg * np.power(2.0, hw), stored)
+    return {"status": "confirmed" if bad else "refuted", "observed": obs}
+  if clause in ("plain", "applied_once"):
+    bad = not np.array_equal(hw, stored) if clause == "plain" else not np.array_equal(np.array(kq(tf.constant(wts))), stored)
+    return {"status": "confirmed" if bad else "refuted", "observed": obs}
+  return {"status": "unsupported"}
